@@ -329,7 +329,7 @@ type handlerWriter struct {
 }
 
 func (s *handlerWriter) Write(buf []byte) (n int, err error) {
-	if s.lvl >= s.l.Level() {
+	if s.l.Enabled(s.lvl) {
 		var pc uintptr
 		if s.capturePC {
 			// skip [runtime.Callers, s.Write, Logger.Output, log.Print]
